@@ -139,6 +139,9 @@ pub fn generate(prop: &str, tier: Tier, rng: &mut Rng, index: u64) -> Scenario {
                 _ => Scenario::MapViews(MapViews::generate(rng, if big { 600 } else { 200 }, true)),
             }
         },
+        // Directed, by position in the batch: the two giants.
+        "C19" if index % (if big { 2_000_000 } else { 10_000_000 }) == 3 => Scenario::Supports(Supports::generate_giant(rng, 0)),
+        "C19" if index % (if big { 2_000_000 } else { 10_000_000 }) == 4 => Scenario::Supports(Supports::generate_giant(rng, 1)),
         "C19" => {
             match rng.below(4) {
                 0 | 1 => Scenario::Supports(Supports::generate(rng, if big { 140_000 } else { 20_000 })),
@@ -151,6 +154,7 @@ pub fn generate(prop: &str, tier: Tier, rng: &mut Rng, index: u64) -> Scenario {
         "C13" if index % (if big { 4000 } else { 100_000 }) == 5 => Scenario::MapViews(MapViews::generate_giant(rng)),
         "C13" => { let max_len = if rng.chance(1, 12) { 24_000 } else if big { 1500 } else { 300 }; Scenario::MapViews(MapViews::generate(rng, max_len, false)) },
         "C18" => Scenario::MapLife(MapLife::generate(rng, big)),
+        "C20" if index % (if big { 400 } else { 100_000 }) == 7 => Scenario::NameVolume(NameVolume::generate_wrap(rng)),
         "C20" => Scenario::NameVolume(NameVolume::generate(rng, big)),
         _ => panic!("sdsim: no generator for property {}", prop),
     }
